@@ -604,6 +604,7 @@ class Flow:
         if isinstance(s, ast.Raise):
             cur = self.do_calls(s.exc, states, out)
             for st in cur:
+                self.c.on_stmt(s, st)
                 if s.exc is None or (isinstance(s.exc, ast.Name) and cur_exc and s.exc.id == cur_exc[1]):
                     if cur_exc is None:
                         out.exc.add((st, "BaseException", s))
